@@ -404,7 +404,16 @@ def rule_order_and_restore(chk):
     wcfg = ctx.cfg(w)
     problems = []
     inst = [(n, c) for n, c, m in ctx.calls_to(w, sw)]
-    if len(inst) != 1 or not isinstance(inst[0][0].ast, ast.Assign):
+    inline_direct = []
+    if len(inst) == 1:
+        # addCleanup(swap_logger, swap_logger(logger)): the installing call's result goes straight into the restoring cleanup
+        inline_direct = [n for n in wcfg.live for c, m in calls_in_node(n) if isinstance(c.func, ast.Attribute) and c.func.attr == "addCleanup" and len(c.args) == 2
+                         and isinstance(c.args[0], ast.Name) and c.args[0].id == sw.name and c.args[1] is inst[0][1]]
+    if inline_direct:
+        fcalls = [n for n in wcfg.live for c, m in calls_in_node(n) if isinstance(c.func, ast.Name) and c.func.id == "function"]
+        if not fcalls or not wcfg.precedes(inline_direct, fcalls)[0]:
+            problems.append("the restoring cleanup is not registered with addCleanup before the test function is called")
+    elif len(inst) != 1 or not isinstance(inst[0][0].ast, ast.Assign):
         problems.append("the wrapper does not install the logger with exactly one swap_logger(logger) whose result is kept")
     else:
         prev = inst[0][0].ast.targets[0].id
